@@ -60,7 +60,7 @@ Print Assumptions C11_checksum_standard.
 
 (* a new name is appended: every case variant of it resolves to the new entry, every key that resolved before still resolves to the same entry, the listing grows by exactly that name (no shadowing, no merging) *)
 Theorem C11_created_entry_found_no_shadowing :
-  forall (upper : list N -> list N) (spc : N) (d : Model.dir) (name : list N) (entry : Model.rec) (recs_new : list Model.rec), ProofsClean.wf_recs (Model.d_recs d) -> ProofsView.cap_ok d -> 0 < spc -> ProofsOps.entry_ok entry -> name <> [] -> name_ok name = true -> (length (utf16 name) <= 255)%nat -> ProofsNames.ends_ffff name = false -> ~ In 229 (upper (Model.lstrip_dots name)) -> (forall a : N, case_attr name (fst (short_parts name (upper (Model.lstrip_dots name)))) (snd (short_parts name (upper (Model.lstrip_dots name)))) = Some a -> fst (short_parts name (upper (Model.lstrip_dots name))) <> []) -> Model.find upper (upper name) (upper name) (Model.groups (Model.d_recs d)) = Ok None -> (do xs <- Model.split_all (Model.groups (Model.d_recs d)); prefix_entries name (upper (Model.lstrip_dots name)) (Model.existing_of xs) entry) = Ok recs_new -> ProofsMain.succeeds d recs_new -> exists (d' : Model.dir) (sfn8 ext3 : list N) (a2 : N) (alias : list N), let e' := short_record entry sfn8 ext3 a2 in Model.setitem upper spc d name entry = (d', None) /\ Model.d_cap d' = Model.d_cap d /\ length sfn8 = 8%nat /\ length ext3 = 3%nat /\ ProofsView.view (Model.d_recs d') = ProofsView.view (Model.d_recs d) ++ [Ok (name, alias, e')] /\ (forall v : list N, upper v = upper name -> Model.getitem upper d' v = Ok e') /\ (forall (key : list N) (e : Model.rec), Model.getitem upper d key = Ok e -> Model.getitem upper d' key = Ok e) /\ (forall key : list N, upper key <> upper name -> upper key <> alias -> Model.getitem upper d' key = Model.getitem upper d key) /\ (exists names : list (list N), Model.listing d = Ok names /\ Model.listing d' = Ok (names ++ [name])).
+  forall (upper : list N -> list N) (spc : N) (d : Model.dir) (name : list N) (entry : Model.rec) (recs_new : list Model.rec), ProofsClean.wf_recs (Model.d_recs d) -> ProofsView.cap_ok d -> 0 < spc -> ProofsOps.entry_ok entry -> name <> [] -> name_ok name = true -> (length (utf16 name) <= 255)%nat -> ProofsNames.ends_ffff name = false -> ~ In 229 (upper (Model.lstrip_dots name)) -> (forall a : N, case_attr name (fst (short_parts name (upper (Model.lstrip_dots name)))) (snd (short_parts name (upper (Model.lstrip_dots name)))) = Some a -> fst (short_parts name (upper (Model.lstrip_dots name))) <> []) -> Model.find upper (upper name) (upper name) (Model.groups (Model.d_recs d)) = Ok None -> (do xs <- Model.split_all (Model.groups (Model.d_recs d)); prefix_entries name (upper (Model.lstrip_dots name)) (Model.existing_of upper xs) entry) = Ok recs_new -> ProofsMain.succeeds d recs_new -> exists (d' : Model.dir) (sfn8 ext3 : list N) (a2 : N) (alias : list N), let e' := short_record entry sfn8 ext3 a2 in Model.setitem upper spc d name entry = (d', None) /\ Model.d_cap d' = Model.d_cap d /\ length sfn8 = 8%nat /\ length ext3 = 3%nat /\ ProofsView.view (Model.d_recs d') = ProofsView.view (Model.d_recs d) ++ [Ok (name, alias, e')] /\ (forall v : list N, upper v = upper name -> Model.getitem upper d' v = Ok e') /\ (forall (key : list N) (e : Model.rec), Model.getitem upper d key = Ok e -> Model.getitem upper d' key = Ok e) /\ (forall key : list N, upper key <> upper name -> upper key <> alias -> Model.getitem upper d' key = Model.getitem upper d key) /\ (exists names : list (list N), Model.listing d = Ok names /\ Model.listing d' = Ok (names ++ [name])).
 Proof. exact FatDir.ProofsMain.setitem_new_then_getitem. Qed.
 Print Assumptions C11_created_entry_found_no_shadowing.
 
